@@ -1,4 +1,294 @@
-/-! Model/C09 — executable model (core Lean only; imports only NibabelModel.Basic.* / other Model files). -/
+/-
+  Model/C09 — executable model of load / modify / save histories over an abstract file system.
+
+  Python source modelled (line numbers of /repo after the `fix:` commits):
+  * nibabel/loadsave.py:147-208            `save()` — `to_filename`, on ImageFileError class conversion by
+                                            extension (`from_image`) and `converted.to_filename`
+  * nibabel/filebasedimages.py:287-304     `to_filename` — rebinding `self.file_map`, then `to_file_map()`
+  * nibabel/analyze.py:1001-1066           `AnalyzeImage.to_file_map` (NIfTI single/pair inherit):
+                                            `data = np.asanyarray(self.dataobj)`; `if isinstance(data, np.memmap):
+                                            data = np.array(data)` (the repair); open 'wb'; write; rebind
+  * nibabel/freesurfer/mghformat.py:546-562 `MGHImage.to_file_map` (same shape)
+  * nibabel/freesurfer/mghformat.py:143-154 `MGHHeader.from_header` (foreign header -> FRESH header: float32)
+  * nibabel/spatialimages.py:591-612, 206-220 `from_image` / `from_header` (dtype, shape, zooms survive)
+  * nibabel/volumeutils.py:441-453         `array_from_file`: `np.memmap(mode='c')` for an uncompressed file
+  * nibabel/arrayproxy.py:174, 383-441     the proxy keeps `file_like` and the (shape, dtype, offset, slope, inter)
+                                            it was built with; `__array__` returns the memmap itself when
+                                            slope, inter = 1, 0; `astype(copy=False)` keeps it for float64
+  * nibabel/dataobj_images.py              `get_fdata` cache, `uncache`
+  * nibabel/filebasedimages.py `to_bytes`  serialises through `to_file_map(BytesIO map)` (rebinds `file_map`!)
+
+  Abstractions
+  * a file's content is what a FRESH load decodes to: (data id, affine id, on-disk dtype, scaled?, tag), or
+    `truncated` (opened 'wb', nothing written yet);   the class of a fresh load is a function of the path;
+  * data/affine/tag are abstract identifiers (Nat);  shape is fixed;  "scaled" = slope/inter ≠ (1, 0);
+  * external behaviour entering as contract (trusted base): `np.memmap(mode='c')` is a REFERENCE to the file's
+    current content — reading it after the file was truncated or re-laid-out yields SIGBUS, zeros or
+    garbage, all collapsed into the outcome `bad`;  a compressed file cannot be mapped (fresh decode);
+    NumPy casts of the (small-integer) test data are value preserving up to the array-writer tolerance.
+-/
 namespace Nb.C09
+
+/-- the path alphabet of the property (`a.img` stands for the pair `a.img` + `a.hdr`) -/
+inductive Path where
+  | aNii | aNiiGz | bNii | aImg | aMgh | aMgz
+  deriving Repr, DecidableEq, Inhabited
+
+inductive Cls where
+  | nifti1   -- Nifti1Image
+  | pair     -- Nifti1Pair
+  | mgh      -- MGHImage
+  deriving Repr, DecidableEq, Inhabited
+
+inductive DT where
+  | u8 | i16 | i32 | f32 | f64
+  deriving Repr, DecidableEq, Inhabited
+
+def DT.isFloat : DT → Bool
+  | .f32 | .f64 => true
+  | _ => false
+
+/-- `Opener`: `.gz` names (and `.mgz`) are compressed streams — never memory mapped -/
+def Path.compressed : Path → Bool
+  | .aNiiGz | .aMgz => true
+  | _ => false
+
+/-- image class that `load` returns for / `save` converts to, by extension (loadsave.py) -/
+def Path.cls : Path → Cls
+  | .aNii | .aNiiGz | .bNii => .nifti1
+  | .aImg => .pair
+  | .aMgh | .aMgz => .mgh
+
+def Path.all : List Path := [.aNii, .aNiiGz, .bNii, .aImg, .aMgh, .aMgz]
+
+/-- what a fresh load of an intact file decodes to -/
+structure Content where
+  data : Nat
+  aff : Nat
+  dt : DT
+  scaled : Bool
+  tag : Nat
+  deriving Repr, DecidableEq, Inhabited
+
+inductive File where
+  | intact (c : Content)
+  | truncated
+  deriving Repr, DecidableEq, Inhabited
+
+abbrev FS := Path → Option File
+
+def FS.set (fs : FS) (q : Path) (v : Option File) : FS := fun p => if p = q then v else fs p
+
+/-- `_fdata_cache` of `DataobjImage` -/
+inductive Cache where
+  | none
+  | owned (d : Nat)     -- an ndarray that owns its memory
+  | alias               -- the float64 memmap of the source file itself (`astype(copy=False)`)
+  deriving Repr, DecidableEq, Inhabited
+
+/-- a lazily loaded image: header state + array proxy + caches -/
+structure Img where
+  cls : Cls
+  dt : DT               -- header data dtype (what the next save writes)
+  tag : Nat             -- a free header field (`descrip` / `tr`)
+  aff : Nat
+  data : Nat            -- GHOST: data id the proxy decoded when the image was loaded (not used by `step`)
+  src : Path            -- proxy.file_like
+  srcDt : DT            -- proxy spec: dtype ...
+  srcScaled : Bool      -- ... and slope/inter the proxy was built with
+  mm : Bool             -- `mmap=` argument of load
+  fname : Option Path   -- file_map (what `get_filename()` reports)
+  cache : Cache
+  deriving Repr, DecidableEq, Inhabited
+
+/-- result of `np.asanyarray(self.dataobj)` -/
+inductive Mat where
+  | copy (d : Nat)      -- fresh ndarray
+  | ref (p : Path) (dt : DT) (scaled : Bool)   -- np.memmap on `p`, interpreting it with this layout
+  deriving Repr, DecidableEq, Inhabited
+
+/-- read `p` through a proxy / memmap built for layout (dt, scaled): `none` = SIGBUS / zeros / garbage /
+    "Expected n bytes, got m" -/
+def readLayout (fs : FS) (p : Path) (dt : DT) (scaled : Bool) : Option Nat :=
+  match fs p with
+  | some (.intact c) => if c.dt = dt ∧ c.scaled = scaled then some c.data else none
+  | _ => none
+
+/-- the proxy hands out the memmap itself iff mmap was requested, the file is not compressed and no scaling
+    is applied (arrayproxy.py `_get_scaled` / volumeutils.py `apply_read_scaling`, `array_from_file`) -/
+def Img.mapped (im : Img) : Bool := im.mm && !im.src.compressed && !im.srcScaled
+
+/-- `np.asanyarray(img.dataobj)` -/
+def materialise (fs : FS) (im : Img) : Option Mat :=
+  match readLayout fs im.src im.srcDt im.srcScaled with
+  | none => none
+  | some d => if im.mapped then some (.ref im.src im.srcDt im.srcScaled) else some (.copy d)
+
+/-- touch the elements of a materialised array -/
+def deref (fs : FS) : Mat → Option Nat
+  | .copy d => some d
+  | .ref p dt sc => readLayout fs p dt sc
+
+/-- dtype of the in-memory array is floating: float storage, or integer storage with scale factors -/
+def Img.arrFloat (im : Img) : Bool := im.srcDt.isFloat || im.srcScaled
+
+/-- header of the image actually written to `q` (`save()` conversion rules):
+    same class → own header; NIfTI single↔pair → all fields copied (`as_analyze_map`);
+    anything → MGH: FRESH MGH header (float32, tr 0); MGH → NIfTI: dtype/shape/zooms only -/
+def outHeader (im : Img) (q : Path) : DT × Nat :=
+  if q.cls = im.cls then (im.dt, im.tag)
+  else if q.cls = .mgh then (.f32, 0)
+  else if im.cls = .mgh then (im.dt, 0)
+  else (im.dt, im.tag)
+
+/-- the array writer computes scale factors iff the array is floating and the output integer
+    (NIfTI family only; MGH `array_to_file` just casts) -/
+def outScaled (im : Img) (q : Path) : Bool :=
+  q.cls != .mgh && !(outHeader im q).1.isFloat && im.arrFloat
+
+inductive Out where
+  | noImg                       -- op without a live image
+  | loadOk | loadErr
+  | fdata (d : Nat)
+  | unit                        -- uncache / edit / set affine
+  | dtOk | dtErr
+  | saved (c : Content)         -- fresh load of the target right after the save
+  | bytes (c : Content)
+  | bytesErr
+  | bad                         -- crash / zeros / garbage (the model outcome `Crash`)
+  deriving Repr, DecidableEq, Inhabited
+
+structure St where
+  fs : FS
+  img : Option Img
+
+/-- `to_file_map` of the (converted) image onto `q`.  `orig = true` is the logic BEFORE the repair
+    (no copy of a memmap).  Returns outcome and the new file system. -/
+def writeTo (orig : Bool) (fs : FS) (im : Img) (q : Path) : Out × FS :=
+  -- data = np.asanyarray(self.dataobj)
+  match materialise fs im with
+  | none => (.bad, fs)
+  | some m =>
+    -- if isinstance(data, np.memmap): data = np.array(data)     [the repair]
+    let m? : Option Mat :=
+      match m with
+      | .ref _ _ _ => if orig then some m else (deref fs m).map Mat.copy
+      | .copy d => some (.copy d)
+    match m? with
+    | none => (.bad, fs)
+    | some m' =>
+      -- get_prepare_fileobj('wb'): the target is truncated before anything is written
+      let fs1 := fs.set q (some .truncated)
+      -- arr_writer.to_fileobj / array_to_file: the array elements are read now
+      match deref fs1 m' with
+      | none => (.bad, fs1)
+      | some d =>
+        let (dtO, tagO) := outHeader im q
+        let c : Content := { data := d, aff := im.aff, dt := dtO, scaled := outScaled im q, tag := tagO }
+        (.saved c, fs1.set q (some (.intact c)))
+
+/-- `nib.save(img, q)`: rebinding of `file_map` happens only when no class conversion was needed -/
+def save (orig : Bool) (fs : FS) (im : Img) (q : Path) : Out × FS × Img :=
+  match writeTo orig fs im q with
+  | (.saved c, fs') => (.saved c, fs', if q.cls = im.cls then { im with fname := some q } else im)
+  | (o, fs') => (o, fs', im)
+
+/-- `img.get_fdata()` -/
+def getFdata (fs : FS) (im : Img) : Option (Nat × Img) :=
+  match im.cache with
+  | .owned d => some (d, im)
+  | .alias => (readLayout fs im.src im.srcDt im.srcScaled).map (fun d => (d, im))
+  | .none =>
+    match materialise fs im with
+    | none => none
+    | some m =>
+      match deref fs m with
+      | none => none
+      | some d =>
+        -- np.asanyarray(dataobj, dtype=float64): no copy when the memmap already is float64
+        let aliasing := (match m with | .ref _ _ _ => true | .copy _ => false) && im.srcDt == .f64
+        some (d, { im with cache := if aliasing then .alias else .owned d })
+
+/-- `img.to_bytes()`: `to_file_map` onto a BytesIO map (rebinds `file_map`); pairs have no `to_bytes` -/
+def toBytes (fs : FS) (im : Img) : Out × Img :=
+  if im.cls = .pair then (.bytesErr, im)
+  else
+    match (materialise fs im).bind (deref fs) with
+    | none => (.bad, im)
+    | some d =>
+      (.bytes { data := d, aff := im.aff, dt := im.dt, tag := im.tag,
+                scaled := im.cls != .mgh && !im.dt.isFloat && im.arrFloat },
+       { im with fname := none })
+
+/-- dtypes an MGH header accepts (`MGHHeader.set_data_dtype`) -/
+def mghOk : DT → Bool
+  | .f64 => false
+  | _ => true
+
+inductive Op where
+  | load (p : Path) (mm : Bool)
+  | fdata
+  | uncache
+  | edit (k : Nat)
+  | setAff (k : Nat)
+  | setDt (dt : DT)
+  | save (q : Path)
+  | toBytes
+  deriving Repr, DecidableEq, Inhabited
+
+def load (fs : FS) (p : Path) (mm : Bool) : Option Img :=
+  match fs p with
+  | some (.intact c) =>
+      some { cls := p.cls, dt := c.dt, tag := c.tag, aff := c.aff, data := c.data, src := p, srcDt := c.dt,
+             srcScaled := c.scaled, mm := mm, fname := some p, cache := .none }
+  | _ => none
+
+def step (orig : Bool) (s : St) : Op → Out × St
+  | .load p mm =>
+      match load s.fs p mm with
+      | some im => (.loadOk, { s with img := some im })
+      | none => (.loadErr, s)
+  | op =>
+    match s.img with
+    | none => (.noImg, s)
+    | some im =>
+      match op with
+      | .load _ _ => (.noImg, s)   -- unreachable
+      | .fdata =>
+          match getFdata s.fs im with
+          | some (d, im') => (.fdata d, { s with img := some im' })
+          | none => (.bad, s)
+      | .uncache => (.unit, { s with img := some { im with cache := .none } })
+      | .edit k => (.unit, { s with img := some { im with tag := k } })
+      | .setAff k => (.unit, { s with img := some { im with aff := k } })
+      | .setDt dt =>
+          if im.cls = .mgh ∧ mghOk dt = false then (.dtErr, s)
+          else (.dtOk, { s with img := some { im with dt := dt } })
+      | .save q =>
+          match save orig s.fs im q with
+          | (o, fs', im') => (o, { fs := fs', img := some im' })
+      | .toBytes =>
+          match toBytes s.fs im with
+          | (o, im') => (o, { s with img := some im' })
+
+/-- end-of-history usability probe: `get_fdata()` then `np.asanyarray(img.dataobj)` -/
+def probe (s : St) : Option (Option (Nat × Nat)) :=
+  match s.img with
+  | none => some none
+  | some im =>
+    match getFdata s.fs im with
+    | none => none
+    | some (d, _) =>
+      match (materialise s.fs im).bind (deref s.fs) with
+      | none => none
+      | some d2 => some (some (d, d2))
+
+/-- run a history; stops at the first `bad` (the process is dead / the data are gone) -/
+def run (orig : Bool) : St → List Op → List Out × Option St
+  | s, [] => ([], some s)
+  | s, op :: rest =>
+    match step orig s op with
+    | (.bad, _) => ([.bad], none)
+    | (o, s') => let (os, f) := run orig s' rest; (o :: os, f)
 
 end Nb.C09
